@@ -21,7 +21,7 @@ struct StaticAccess { int task; bool write; uint64_t rip; };
 
 struct TaskSim : Harness {
   const char *name() override { return "tasksim"; }
-  int hang_seconds() override { return 60; }
+  int hang_seconds() override { return 600; }
   LcSim gen_helper;  // only used to generate task plans (never executes)
   void worker_init() override {
     if (g_sym.syms.empty() && !g_sym.load("libmir.so")) { fprintf(stderr, "tasksim: cannot read libmir.so symbols\n"); _exit(3); }
@@ -83,6 +83,7 @@ struct TaskSim : Harness {
       if (f[0].s == "stall" && (int64_t) t->events == f[1].num() + 1) { t->stall_until = (int64_t) s->yields + f[2].num(); must = true; s->task_counts["fault_task_stalled"]++; }
     }
     if (!must) {
+      if (s->switches > 25000) return;  // deterministic bound on the cost of one run: from here on tasks run in long slices
       if (s->policy == "sequential_reverse") return;  // tasks run to completion one after another (reverse creation order)
       if (--s->slice_left > 0) return;
     }
@@ -220,11 +221,11 @@ struct TaskSim : Harness {
       n = read(pfd[0], buf, sizeof buf);
       if (n > 0) { got.append(buf, (size_t) n); continue; }
       if (n == 0) break;
-      if (now_ms() - t0 > 40000) { kill(pid, SIGKILL); hung = true; break; }
+      if (now_ms() - t0 > 150000) { kill(pid, SIGKILL); hung = true; break; }
       usleep(200);
     }
     close(pfd[0]); int st = 0; waitpid(pid, &st, 0);
-    if (hung) { death->status = "hang"; death->cls = "hang"; death->sig = which < 0 ? "interleaved" : "solo"; death->detail = "no result within 40 s"; return Json(); }
+    if (hung) { death->status = "hang"; death->cls = "hang"; death->sig = which < 0 ? "interleaved" : "solo"; death->detail = "no result within 150 s"; return Json(); }
     if (WIFEXITED(st) && WEXITSTATUS(st) == 0 && !got.empty()) { try { return Json::parse(got); } catch (...) {} }
     *death = classify_death(st, g_slot ? (const char *) g_slot->note : "", false);
     return Json();
